@@ -125,7 +125,7 @@ def in_value(o, v):
         if issubclass(t, collections.abc.Mapping) and len(v.args) == 2:
             return all(in_value(k, v.args[0]) and in_value(x, v.args[1]) for k, x in o.items())
         if isinstance(o, str):       # nominal convention shared with ref/member.py: str is a sequence of str, bytes of int
-            return len(v.args) != 1 or in_value("a", v.args[0])
+            return len(v.args) != 1 or (in_value("a", v.args[0]) and in_value("\x00zz", v.args[0]))
         if isinstance(o, (bytes, bytearray)):
             return len(v.args) != 1 or in_value(0, v.args[0])
         if isinstance(o, collections.abc.Iterable) and len(v.args) == 1 and not isinstance(o, collections.abc.Iterator) and not isinstance(o, type):
